@@ -226,6 +226,8 @@ func runC14(c *mon.Ctx) {
 		winM = map[uint16]string{0x0409: "en-US"}
 	}
 	macL, winL := c14langTable(macM), c14langTable(winM)
+	encodeAliasing(c, "name", c.N(300, 20000), nameAliasEncoders)
+	c.Require("name:encode-aliasing-checked")
 
 	// ------------------------------------------------------------------
 	c.Stratum("name", c.N(2500, 250000), func(k *mon.Case) {
@@ -1369,6 +1371,25 @@ func c14post(k *mon.Case, thorough bool) {
 			k.Fail("mismatch", "post:roundtrip-name", "glyph %d: %.40q read, %.40q written", i, dec.Names[i], info.Names[i])
 		}
 	}
+	// a later Encode call (of another table) must not disturb this result
+	var ag aliasGuard
+	ag.Keep("post.Info.Encode", enc)
+	var later []byte
+	if k.Guard("post.Info.Encode", func() {
+		later = (&post.Info{Names: []string{".notdef", "second", "table"}, UnderlineThickness: 77}).Encode()
+	}) {
+		return
+	}
+	ag.Keep("post.Info.Encode (second call)", later)
+	if k.Guard("post.Info.Encode", func() { info.Encode() }) {
+		return
+	}
+	if ag.Check(k, "post:encode-result-overwritten-by-later-call") {
+		if d2, err := post.Read(bytes.NewReader(enc)); err != nil || len(d2.Names) != len(info.Names) {
+			k.Fail("mismatch", "post:encode-result-overwritten-by-later-call", "the first table no longer reads back after further Encode calls: %v", err)
+		}
+	}
+	k.Eval()
 	if dec.UnderlinePosition != info.UnderlinePosition || dec.UnderlineThickness != info.UnderlineThickness || dec.IsFixedPitch != info.IsFixedPitch || dec.ItalicAngle != info.ItalicAngle {
 		k.Fail("mismatch", "post:roundtrip-header", "read %v %d %d %v, written %v %d %d %v", dec.ItalicAngle, dec.UnderlinePosition, dec.UnderlineThickness, dec.IsFixedPitch,
 			info.ItalicAngle, info.UnderlinePosition, info.UnderlineThickness, info.IsFixedPitch)
